@@ -84,7 +84,7 @@ func observeTree(n *Node, v any, outs *[]string) error {
 
 type renderStats struct {
 	nodes, stacks, conds, leaves, depth int
-	tags                               map[string]bool
+	tags                                map[string]bool
 }
 
 func (st *renderStats) walk(n *Node, d int) {
@@ -231,6 +231,7 @@ var renderStrings = []string{"a", "bc", "x y", "", "Ã©", " pad ", "a\tb", "æ—¥æœ
 
 var renderSyms = []string{"", "", "&", "||", "Ã©", "|", "!"}
 var renderDelims = []string{"", "", ",", " ", ";;", ", "}
+
 // the last two are stored but have no effect: a pair of empty strings, and a
 // three-element slice (encapValue ignores it)
 var renderEnc = [][]string{{"\""}, {"[", "]"}, {"<", ">"}, {"'"}, {"(", ")"}, {"Â«", "Â»"}, {" "}, {""}, {"{", "}", "x"}}
@@ -293,11 +294,11 @@ func leafOf(s string) *Node { return &Node{T: "str", S: s} }
 func genRender(ctx *Ctx, emit func(any, string)) {
 	// the shapes of the repaired and of the remaining defects, always
 	for _, t := range []*Node{
-		{T: "stack", Kind: "LIST", Opt: 4, Els: []*Node{leafOf("a"), leafOf("b")}},                                                            // D19 (stays)
+		{T: "stack", Kind: "LIST", Opt: 4, Els: []*Node{leafOf("a"), leafOf("b")}},                                                                                        // D19 (stays)
 		{T: "stack", Kind: "LIST", Els: []*Node{{T: "stack", Kind: "AND", Els: []*Node{leafOf("a"), leafOf("b")}}, {T: "stack", Kind: "AND", Els: []*Node{leafOf("c")}}}}, // D19, padded variant
-		{T: "stack", Kind: "AND", Els: []*Node{leafOf("Ã© x"), leafOf("b")}},                                                                     // D18
-		{T: "stack", Kind: "AND", Els: []*Node{leafOf("a"), {T: "stack", Kind: "NOT", Opt: 2, Els: []*Node{leafOf("z")}}}},                      // D20
-		{T: "stack", Kind: "AND", Els: []*Node{leafOf("a"), {T: "stack", Kind: "NOT"}, leafOf("b")}},                                            // D21
+		{T: "stack", Kind: "AND", Els: []*Node{leafOf("Ã© x"), leafOf("b")}},                                                                                               // D18
+		{T: "stack", Kind: "AND", Els: []*Node{leafOf("a"), {T: "stack", Kind: "NOT", Opt: 2, Els: []*Node{leafOf("z")}}}},                                                // D20
+		{T: "stack", Kind: "AND", Els: []*Node{leafOf("a"), {T: "stack", Kind: "NOT"}, leafOf("b")}},                                                                      // D21
 	} {
 		emit(RenderInput{Tree: t}, "exhaustive")
 	}
